@@ -149,7 +149,7 @@ Spec == Init /\ [][Next]_vars
 
 (* ================= the declarative statement ============================================== *)
 Done == pc = "done"
-NT == Len(order)                                   \* order is a function on 0..NT-1
+NT == Cardinality(DOMAIN order)                    \* order is a function on 0..NT-1
 NewNodes == DOMAIN order
 Orig(n) == IF n = NULL THEN NULL ELSE order[n]
 
